@@ -1069,6 +1069,74 @@ Proof.
       * destruct H as [-> Hall]. split; [reflexivity|]. constructor; assumption.
 Qed.
 
+(* the whole authentication dialogue of one connection: with no limit on the number of
+   failed requests (max <= 0; the proxy configures -1) every request the client makes is
+   answered, every password reaches the backend once, in order, and the verdict is the
+   backend's - for dialogues of any length, from any count of earlier failures *)
+Lemma auth_guard_off max fails : max <= 0 -> ((max <=? fails) && (0 <? max))%bool = false.
+Proof. intros H. replace (0 <? max) with false; [apply andb_false_r|]. symmetry. apply Z.ltb_ge. exact H. Qed.
+
+Lemma pubs_of_cons_pub r : pubs_of (APub :: r) = (1 + pubs_of r)%N.
+Proof. unfold pubs_of. cbn [filter length]. rewrite Nat2N.inj_succ, N.add_1_l. reflexivity. Qed.
+
+Lemma auth_dialogue_relays_all max oracle user reqs : max <= 0 -> forall fails,
+  let o := auth_dialogue max oracle user fails reqs in
+  let sent := client_sends oracle user reqs in
+  au_saw o = creds_of user sent /\
+  au_verdicts o = map (backend_verdict oracle user) sent /\
+  au_pk o = pubs_of sent /\
+  au_open o = true.
+Proof.
+  intros Hmax. induction reqs as [|q r IH]; intros fails; cbn zeta.
+  - cbn [auth_dialogue client_sends creds_of flat_map map au_saw au_verdicts au_pk au_open].
+    rewrite (auth_guard_off _ _ Hmax). repeat split; reflexivity.
+  - cbn [auth_dialogue]. rewrite (auth_guard_off _ _ Hmax).
+    destruct q as [| |pw].
+    + destruct (IH ((if fails =? 0 then fails - 1 else fails) + 1)) as (Hs & Hv & Hp & Ho). cbn zeta in *.
+      cbn [client_sends creds_of flat_map map backend_verdict auth_cons au_saw au_verdicts au_pk au_open app].
+      fold (creds_of user (client_sends oracle user r)).
+      rewrite Hs, Hv, Hp, Ho. repeat split; reflexivity.
+    + destruct (IH (fails + 1)) as (Hs & Hv & Hp & Ho). cbn zeta in *.
+      cbn [client_sends creds_of flat_map map backend_verdict auth_cons au_saw au_verdicts au_pk au_open app].
+      fold (creds_of user (client_sends oracle user r)).
+      rewrite pubs_of_cons_pub, Hs, Hv, Hp, Ho. repeat split; reflexivity.
+    + cbn [client_sends]. destruct (oracle (user, pw)) eqn:E.
+      * cbn [creds_of flat_map map backend_verdict au_saw au_verdicts au_pk au_open app]. rewrite E.
+        repeat split; reflexivity.
+      * destruct (IH (fails + 1)) as (Hs & Hv & Hp & Ho). cbn zeta in *.
+        cbn [creds_of flat_map map backend_verdict auth_cons au_saw au_verdicts au_pk au_open app].
+        fold (creds_of user (client_sends oracle user r)).
+        rewrite E, Hs, Hv, Hp, Ho. repeat split; reflexivity.
+Qed.
+
+(* for a dialogue of passwords only this is the attempt-by-attempt run of auth_run *)
+Lemma auth_dialogue_passwords max oracle user pws : max <= 0 -> forall fails,
+  au_saw (auth_dialogue max oracle user fails (map APw pws)) = fst (auth_run oracle (map (pair user) pws)) /\
+  existsb (fun v => match v with VOk => true | _ => false end)
+          (au_verdicts (auth_dialogue max oracle user fails (map APw pws))) = snd (auth_run oracle (map (pair user) pws)).
+Proof.
+  intros Hmax. induction pws as [|pw r IH]; intros fails; cbn [map auth_dialogue auth_run].
+  - rewrite (auth_guard_off _ _ Hmax). split; reflexivity.
+  - rewrite (auth_guard_off _ _ Hmax). destruct (oracle (user, pw)) eqn:E.
+    + split; reflexivity.
+    + destruct (IH (fails + 1)) as [Hs Hv].
+      destruct (auth_run oracle (map (pair user) r)) as [l ok] eqn:R.
+      cbn [auth_cons au_saw au_verdicts app fst snd existsb orb] in *. rewrite Hs, Hv. split; reflexivity.
+Qed.
+
+(* the hypothesis max <= 0 is needed: with a limit of six (what x/crypto/ssh makes of an
+   unset MaxAuthTries) the seventh password of a connection reaches nobody *)
+Definition PW (n : N) : areq := APw [119; n]%N.
+Definition ORACLE_LAST (c : cred) : bool := eqb_bytes (snd c) [119; 8]%N.
+Lemma auth_limit_example :
+  let reqs := ANone :: map PW [1;2;3;4;5;6;7;8]%N in
+  client_sends ORACLE_LAST [114]%N reqs = reqs /\
+  au_saw (auth_dialogue PROXY_MAX_AUTH_TRIES ORACLE_LAST [114]%N 0 reqs) = creds_of [114]%N reqs /\
+  au_saw (auth_dialogue 6 ORACLE_LAST [114]%N 0 reqs) = creds_of [114]%N (firstn 7 reqs) /\
+  au_verdicts (auth_dialogue 6 ORACLE_LAST [114]%N 0 reqs) = [VFail; VFail; VFail; VFail; VFail; VFail; VFail; VClosed; VClosed] /\
+  au_open (auth_dialogue 6 ORACLE_LAST [114]%N 0 reqs) = false.
+Proof. vm_compute. repeat split. Qed.
+
 Definition ssh_inv (s : ssh_st) : Prop :=
   Forall (fun m => is_req m = true) (q_req s) /\ Forall (fun m => is_req m = false) (q_data s).
 
